@@ -121,6 +121,7 @@ type c16Session struct {
 	fired    bool // OnClose goroutine already spawned
 	onCloseRan int
 	behaviour int
+	desc     *ttrpc.ServiceDesc // the plugin service registered on this session's server
 }
 
 type c16World struct {
@@ -138,10 +139,11 @@ const (
 	peerDropsBeforeRegisterReturns
 	peerDropsBeforeConfigure
 	peerConfigureRejected
+	peerDropsDuringConfigure
 	numC16Peers
 )
 
-var c16PeerNames = [...]string{"ok", "refuses-registration", "drops-during-register", "drops-before-configure", "configure-rejected"}
+var c16PeerNames = [...]string{"ok", "refuses-registration", "drops-during-register", "drops-before-configure", "configure-rejected", "drops-during-configure"}
 
 func verifNewServer(opts ...ttrpc.ServerOpt) (*ttrpc.Server, error) {
 	s := &ttrpc.Server{}
@@ -149,7 +151,22 @@ func verifNewServer(opts ...ttrpc.ServerOpt) (*ttrpc.Server, error) {
 	return s, nil
 }
 
-func verifRegisterService(s *ttrpc.Server, name string, desc *ttrpc.ServiceDesc) {}
+func verifRegisterService(s *ttrpc.Server, name string, desc *ttrpc.ServiceDesc) {
+	if sess := sessionOfServer(s); sess != nil {
+		sess.desc = desc
+	}
+}
+
+// deliverConfigure: the runtime's Configure request arrives on session s and is dispatched, in its own
+// goroutine, to the service registered on that session's server (the real generated ttrpc glue).
+func deliverConfigure(s *c16Session, config string) {
+	vassert(s.desc != nil, "no-plugin-service-registered-on-session")
+	m := s.desc.Methods["Configure"]
+	go m(context.Background(), func(v interface{}) error {
+		v.(*api.ConfigureRequest).Config = config
+		return nil
+	})
+}
 
 func verifNewClient(conn stdnet.Conn, opts ...ttrpc.ClientOpts) *ttrpc.Client {
 	c := &ttrpc.Client{}
@@ -255,11 +272,16 @@ func verifCall(c *ttrpc.Client, ctx context.Context, service, method string, req
 		connectionLost(s)
 		return nil
 	case peerConfigureRejected:
-		go c16.st.Configure(context.Background(), &api.ConfigureRequest{Config: "reject"})
+		deliverConfigure(s, "reject")
+		return nil
+	case peerDropsDuringConfigure:
+		// the Configure request is delivered, but the connection is lost around it
+		deliverConfigure(s, "ok")
+		connectionLost(s)
 		return nil
 	}
 	// the runtime answers the registration and then configures the plugin
-	go c16.st.Configure(context.Background(), &api.ConfigureRequest{Config: "ok"})
+	deliverConfigure(s, "ok")
 	return nil
 }
 
@@ -432,4 +454,36 @@ func H_C16_retry() {
 	vassert(st.conn == stdnet.Conn(s2.conn), "retry-reused-the-dead-connection")
 	settle()
 	vassert(st.IsStarted(), "retried-session-torn-down")
+}
+
+// H_C16_stale_configuration: the first session loses its connection around the Configure request (its result
+// may be produced late); the second session's runtime never configures the plugin: the second Start must
+// not succeed on the strength of the first session's configuration result.
+//verif:property C16
+//verif:preempt 0
+//verif:maxgoroutines 12
+//verif:cut github.com/containerd/nri/pkg/net/multiplex.Multiplex => verifMultiplex
+//verif:cut github.com/containerd/ttrpc.NewServer => verifNewServer
+//verif:cut (*github.com/containerd/ttrpc.Server).RegisterService => verifRegisterService
+//verif:cut github.com/containerd/ttrpc.NewClient => verifNewClient
+//verif:cut (*github.com/containerd/ttrpc.Client).Close => verifClientClose
+//verif:cut (*github.com/containerd/ttrpc.Server).Close => verifServerClose
+//verif:cut (*github.com/containerd/ttrpc.Server).Serve => verifServe
+//verif:cut (*github.com/containerd/ttrpc.Client).Call => verifCall
+//verif:cut (*github.com/containerd/nri/pkg/api.EventMask).PrettyString => verifPretty
+//verif:expect-cover second-start-failed
+func H_C16_stale_configuration() {
+	st := newC16(false)
+	newSession(peerDropsDuringConfigure)
+	err := st.Start(context.Background())
+	if err == nil {
+		return // the configuration arrived in time on this schedule
+	}
+	settle()
+	newSession(peerDropsBeforeConfigure)
+	err2 := st.Start(context.Background())
+	vassert(err2 != nil, "start-succeeded-without-configuration")
+	if err2 != nil {
+		cover("second-start-failed")
+	}
 }
